@@ -21,8 +21,9 @@
    connect_ex / getsockname raising socket.error is modelled (result class KRaise: the attempt
    is counted, the exception propagates out of the service call, so the timer check of
    serviceConnect is skipped).
-   Not modelled: TLS handshake (ClientTls), Patron's request/response
-   servicing and the server-sent-event retry duration (respondent.evented = False).      *)
+   The event-stream Patron (respondent.evented, reconnect duration = respondent.retry) is the
+   separate driver patron_ev_service.
+   Not modelled: TLS handshake (ClientTls), Patron's request/response servicing.      *)
 From Coq Require Import List ZArith Bool.
 Import ListNotations.
 Open Scope Z_scope.
@@ -161,6 +162,15 @@ Definition stack_service (c : client) : client :=
   else let c1 := serviceConnect c in
        if accepted c1 then set_lha c1 else c1.
 
+(* Patron.serviceAll when the current response is a server-sent-event stream (respondent.evented):
+   the cut-off branch restarts the timer with duration = respondent.retry (r, in ticks) *)
+Definition set_dur (c : client) (r : Z) : client :=
+  mkClient (cs c) (att c) (nsock c) (opened c) (accepted c) (cutoff c) (ca c) (ha c) (lha c)
+           (tstart c) r (timeout c) (reconn c) (now c) (evs c).
+Definition patron_ev_service (r : Z) (c : client) : client :=
+  let c1 := if cutoff c && reconn c && timed_out c then set_dur (restart (reopen c)) r else c in
+  if accepted c1 then c1 else serviceConnect c1.
+
 Inductive drv := Bare | Patron | Stack.
 
 Definition service (d : drv) (c : client) : client :=
@@ -190,6 +200,12 @@ Definition step (d : drv) (c : client) (t : tick) : client :=
   service d c2.
 
 Definition run (d : drv) (c : client) (ts : list tick) : client := fold_left (step d) ts c.
+
+Definition step_ev (r : Z) (c : client) (t : tick) : client :=
+  let c1 := advance c (fst t) in
+  let c2 := if snd t then env_cut c1 else c1 in
+  patron_ev_service r c2.
+Definition run_ev (r : Z) (c : client) (ts : list tick) : client := fold_left (step_ev r) ts c.
 
 End Oracle.
 
